@@ -24,10 +24,21 @@ fn spec(cfg: Cfg, want: Wants) -> RunSpec {
     RunSpec { cfg, want, hashers: vec![], adequacy: false, max_depth: usize::MAX }
 }
 
+/// every other configuration of a menu is constructed through the second builder path
+fn alternate_builders(mut v: Vec<Cfg>) -> Vec<Cfg> {
+    for (i, c) in v.iter_mut().enumerate() {
+        if c.kind != Kind::Raw && i % 2 == 1 {
+            c.builder_path = 1;
+        }
+    }
+    v
+}
+
 fn raw(cap: usize, extra_keys: u8, versions: u8) -> Cfg {
     let mut c = Cfg::base(Kind::Raw, &[cap], cap as u8 + extra_keys);
     c.versions = versions;
     c.resize = (0..=(cap as u8 + 1)).collect();
+    c.resize.push(255); // 255 stands for resize(usize::MAX): "resize to any value"
     c.with_clone = true;
     c
 }
@@ -90,7 +101,9 @@ fn wtlfu_menu(tier: Tier) -> Vec<Cfg> {
         wtlfu(1, 1, 1, 3, SEEDS[0], KHKind::Identity),
         wtlfu(1, 1, 1, 3, SEEDS[1], KHKind::Spread),
         wtlfu(1, 2, 1, 3, SEEDS[0], KHKind::Spread),
-        wtlfu(1, 1, 2, 2, SEEDS[0], KHKind::Identity),
+        wtlfu(1, 1, 2, 3, SEEDS[0], KHKind::Identity),
+        wtlfu(1, 1, 2, 2, SEEDS[3], KHKind::Spread),
+        wtlfu(1, 2, 2, 4, SEEDS[0], KHKind::Spread),
         wtlfu(2, 1, 1, 5, SEEDS[2], KHKind::Spread),
     ];
     if tier == Tier::Thorough {
@@ -110,6 +123,10 @@ fn wtlfu_menu(tier: Tier) -> Vec<Cfg> {
 
 /// the "policy" menu: every kind, fast types, one value version
 fn policy_menu(kind: Kind, tier: Tier) -> Vec<Cfg> {
+    alternate_builders(policy_menu_inner(kind, tier))
+}
+
+fn policy_menu_inner(kind: Kind, tier: Tier) -> Vec<Cfg> {
     match kind {
         Kind::Raw => {
             let mut v = vec![raw(1, 1, 1), raw(2, 1, 1), raw(3, 1, 1), raw(2, 2, 2)];
@@ -163,6 +180,10 @@ fn obs_want() -> Wants {
 
 /// small configurations with two value versions (coherence, ownership, memory safety)
 fn small_menu(kind: Kind, tier: Tier) -> Vec<Cfg> {
+    alternate_builders(small_menu_inner(kind, tier))
+}
+
+fn small_menu_inner(kind: Kind, tier: Tier) -> Vec<Cfg> {
     match kind {
         Kind::Raw => {
             let mut v = vec![raw(1, 1, 2), raw(2, 1, 2)];
@@ -272,6 +293,15 @@ pub fn plan(prop: &str, tier: Tier) -> Vec<RunSpec> {
             let hashers: &[HKind] = if tier == Tier::Thorough { &[HKind::SipA, HKind::Zero, HKind::Identity] } else { &[HKind::SipA, HKind::Zero] };
             for k in ALL_KINDS {
                 let mut menu = small_menu(k, tier);
+                if k == Kind::Raw {
+                    // the callback variant has its own release paths (remove / remove_lru / eviction)
+                    let mut cb = raw(2, 1, 1);
+                    cb.callback = 2;
+                    menu.push(cb);
+                    let mut cb1 = raw(1, 1, 2);
+                    cb1.callback = 2;
+                    menu.push(cb1);
+                }
                 if tier == Tier::Thorough {
                     menu.extend(policy_menu(k, Tier::Quick));
                 }
